@@ -594,6 +594,26 @@ class BuiltinMixin:
         self.used_axioms.add("lemma:pigeonhole (Lean-checked, transcribed)")
         return [(st, VBool(z3.Implies(z3.And(sub, s_.sort.card(s_.t) >= d.sort.n(d.t)), sup)))]
 
+    def bi_frame(self, args, kw, st, cx, node):
+        """frame('field', obj[, obj2 ...]): the heap field changed at most at the listed objects (w.r.t. the pre-state)"""
+        name = args[0].conc()
+        objs = args[1:]
+        cls = objs[0].cls if objs and isinstance(objs[0], VRef) else None
+        s = self.field_sort(name, cls)
+        k = self.heap_key(name, cls)
+        new = self.heap_arr(st, k, s)
+        t = self.heap_arr(cx.pre, k, s)
+        for o in objs:
+            t = z3.Store(t, o.t, z3.Select(new, o.t))
+        return [(st, VBool(new == t))]
+
+    def bi_same_class(self, args, kw, st, cx, node):
+        return [(st, VBool(self.cls_of(args[0]) == self.cls_of(args[1])))]
+
+    def bi_is_new(self, args, kw, st, cx, node):
+        "is_new(obj): allocated after the pre-state"
+        return [(st, VBool(z3.And(args[0].t >= cx.pre.top, args[0].t < st.top)))]
+
     def bi_unchanged(self, args, kw, st, cx, node):
         "unchanged('field'[, 'Class']) : the heap field is identical to the pre-state"
         name = args[0].conc()
